@@ -96,11 +96,12 @@ def slice_units(tier):
         open(p, "w").write(txt)
     EXTRACTION["c19sx"] = {"functions": len(ex.order), "differential": "not run (libpython / boost.python)"}
     HS = os.path.join(VERIF, "harness", "c19_slice.c")
-    B = "array length <= 6 (harness buffers), stride 1 or 2; element loops unwound completely for that size"
+    nb = 8 if tier == "thorough" else 6
+    B = "array length <= %d (harness buffers), stride 1 or 2; element loops unwound completely for that size" % nb
     asm = ["assumed CPython interface: PySlice_Check / PyLong_Check as ghost flags, PySlice_Unpack yields arbitrary (start, stop, step != 0) or fails, PySlice_AdjustIndices = CPython 3.11 reference code, "
            "PyLong_AsSsize_t arbitrary; FixedArray(length) modelled as a fresh zero-filled writable unmasked array"]
     return [Unit("c19.slice." + n, HS, "h_" + n, includes=[GEN], backend=os.environ.get("C19_BE", "kissat"), mode="BIT", functions=[SALIASES[n], SALIASES["extract_slice_indices"]], clause=c, no_checks=True,
-                 timeout=900, bounded=B, cbmc_flags=["--unwind", "14", "--no-signed-overflow-check", "--object-bits", "10"], assumptions=asm,
+                 timeout=900 if nb == 6 else 5400, bounded=B, defines=["NB=%d" % nb], cbmc_flags=["--unwind", str(2 * nb + 2), "--no-signed-overflow-check", "--object-bits", "10"], assumptions=asm,
                  replay={"src": os.path.join(VERIF, "harness", "c19_slice_replay.cpp"), "lang": "c++", "libs": ["-lboost_python311", "-lpython3.11"],
                          "includes": [os.path.join(REPO, "src/python/PyImath"), "/usr/include/python3.11"], "flags": ['-DVF_WHICH="%s"' % n]})
             for n, c in (("getslice", "getslice(slice or int) on plain and masked arrays: raises exactly on a bad index; otherwise a fresh array whose k-th element is element start + k*step of the array (through the mask); source unchanged"),
